@@ -15,7 +15,7 @@ EXPAND = {"e": ["-e"], "d": ["-d"], "v": ["-v"], "V": ["-V"], "h": ["-h"], "le":
           "oO": ["-o", "O.out"], "oBad": ["-o", "nodir/x.out"],
           "kK": ["-k", K], "kW": ["--key", W], "kShort": ["-k", K[:-1]], "kBadChar": ["-k", K[:20] + "!" + K[21:]],
           "kNoPad": ["-k", K[:22] + "AA"], "kOnePad": ["-k", K[:22] + "A="], "kLong": ["-k", K[:22] + "AAAA=="], "kHigh": ["-k", K[:5] + "\udcc1" + K[6:]],
-          "c0": ["--cmode", "0"], "c4": ["--cmode", "4"], "cNeg": ["--cmode", "-1"], "cHuge": ["--cmode", "99999999999999999999"], "hHuge": ["--hmode", "4294967296"], "cEmpty": ["--cmode", ""], "h0": ["--hmode", "0"], "h2": ["--hmode", "2"], "hNeg": ["--hmode", "-1"],
+          "c0": ["--cmode", "0"], "c4": ["--cmode", "4"], "leAbbr": ["--enc"], "kAbbr": ["--ke", K], "cAbbr": ["--cmod", "3"], "cNeg": ["--cmode", "-1"], "cHuge": ["--cmode", "99999999999999999999"], "hHuge": ["--hmode", "4294967296"], "cEmpty": ["--cmode", ""], "h0": ["--hmode", "0"], "h2": ["--hmode", "2"], "hNeg": ["--hmode", "-1"],
           "iEmptyArg": ["-i", ""], "oEmptyArg": ["-o", ""], "kEmpty": ["-k", ""],
           "c2": ["--cmode", "2"], "c5": ["--cmode", "5"], "c100": ["--cmode", "100"], "c256": ["--cmode", "256"], "c260": ["--cmode", "260"], "cabc": ["--cmode", "abc"],
           "h1": ["--hmode", "1"], "h3": ["--hmode", "3"], "h256": ["--hmode", "256"], "x": ["-x"], "stray": ["stray"]}
@@ -82,7 +82,7 @@ def one_vector(exe, template, root, idx, vec):
     if rc == 0 and not to:
         mode = None
         for t in toks:
-            if t in ("e", "le", "en"): mode = mode or "e"
+            if t in ("e", "le", "en", "leAbbr"): mode = mode or "e"
             elif t in ("d", "ld", "dn"): mode = mode or "d"
             elif t in ("v", "lv", "vn"): mode = mode or "v"
             elif t in ("V", "h"): mode = mode or t
@@ -92,7 +92,7 @@ def one_vector(exe, template, root, idx, vec):
             for t in toks:
                 if t in ("iF", "iE", "iLong", "iProc", "iLen122", "iLen123", "iBadC", "iBadH", "iTam", "iEmpty"): inp = EXPAND[t][1]
                 if t == "oO": outp = "O.out"
-                if t in ("kK", "kW"): key = EXPAND[t][1]
+                if t in ("kK", "kW", "kAbbr"): key = EXPAND[t][1]
             if outp is None and inp is not None:
                 outp = inp + ".wenc"
             if key is None:
